@@ -24,7 +24,8 @@ func init() {
 			"R5b the flush request's ContentLength is set to len(chunk)+len(buf) before the Content-Range is built; R6 a refused Buffer.Write assigns no field of the upload on its path. " +
 			"R5c every path of flush to the request sets Content-Range; R7 the unifier creates its members' chunked-upload writers with the caller's own context. " +
 			"R8 the HTTP client's blobWriter.Write assigns no field of the writer on a path to an error return (what was refused is not silently kept in the buffer). " +
-			"R9 (shared with C15.R8) resuming a unified upload compares the Size() of the one member's writer with that of the other.",
+			"R9 (shared with C15.R8) resuming a unified upload compares the Size() of the one member's writer with that of the other. " +
+			"R10 (shared with C03.R16) every successful return of the HTTP client's blobWriter.Write lies behind the update of w.size: Size() and the committed descriptor count every accepted byte.",
 		NotDecided: "that the concatenation of the written chunks equals the committed content, and the arithmetic of offsets across arbitrary partitions, are value-level and not decided (in particular the Content-Range codec is not its own inverse for a one-byte body, see C01's note).",
 		Technique:  "static analysis: disjunctive path facts, must-pass-through, format-verb provenance, term equality of bookkeeping quantities",
 	})
@@ -142,6 +143,7 @@ func runC04(c *core.Ctx) {
 	c04ResumeRegistersOffset(c)
 	failedMethodLeavesState(c, "C04.R8", "ociclient", "blobWriter", "Write")
 	unifierResumeComparesMemberSizes(c, "C04.R9")
+	successfulMethodPassesThrough(c, "C04.R10", "ociclient", "blobWriter", "Write", "size")
 	c04ServerOffsets(c)
 	m := loadErrModel(c)
 	c.Check(m.StatusOf["ErrRangeInvalid"] == 416, "C04.R1", "status/RANGE_INVALID", 0, "RANGE_INVALID -> 416", "ErrRangeInvalid is not answered with HTTP 416")
